@@ -823,7 +823,7 @@ func isDrainHelper(g *ssa.Function, pi int) bool {
 	if pi >= len(g.Params) || len(g.Blocks) == 0 {
 		return false
 	}
-	dst := "param:"+canonParamName(g.Params[pi])
+	dst := "param:" + canonParamName(g.Params[pi])
 	var cp *ssa.Call
 	n := 0
 	Instrs(g, func(in ssa.Instruction) {
